@@ -434,11 +434,13 @@ func newErrMissingTypes(c containerStore, k key) errMissingTypes {
 
 	if k.t.Kind() == reflect.Array {
 		// Maybe the user meant an array of pointers while we have the array of elements
-		suggestions = append(suggestions, reflect.ArrayOf(k.t.Len(), reflect.PointerTo(k.t.Elem())))
+		if arrayFits(k.t.Len(), reflect.PointerTo(k.t.Elem())) {
+			suggestions = append(suggestions, reflect.ArrayOf(k.t.Len(), reflect.PointerTo(k.t.Elem())))
+		}
 
 		// Maybe the user meant an array of elements while we have the array of pointers
 		arrayElement := k.t.Elem()
-		if arrayElement.Kind() == reflect.Ptr {
+		if arrayElement.Kind() == reflect.Ptr && arrayFits(k.t.Len(), arrayElement.Elem()) {
 			suggestions = append(suggestions, reflect.ArrayOf(k.t.Len(), arrayElement.Elem()))
 		}
 	}
@@ -475,6 +477,13 @@ func newErrMissingTypes(c containerStore, k key) errMissingTypes {
 	}
 
 	return errMissingTypes{mt}
+}
+
+// arrayFits reports whether an array of n elements of type elem fits the
+// address space, which is what reflect.ArrayOf insists on.
+func arrayFits(n int, elem reflect.Type) bool {
+	size := elem.Size()
+	return size == 0 || uintptr(n) <= ^uintptr(0)/size
 }
 
 func (e errMissingTypes) Error() string { return fmt.Sprint(e) }
